@@ -10,8 +10,8 @@ cycles through `_edge_spanner_to_g`, and for every dropped edge the literal `par
 predecessor edges, heap) followed by the walk back along the predecessor edges and the edge itself; the TBB builder pushes
 those cycles in an arbitrary order and sums their weights under an arbitrary schedule.  No hypothesis about the exact
 phase or about the paths is left.  Open choices, all universally quantified: the scan order among equal weights (`scan`
-with `scanOkB`), `order` (unordered_set iteration in the spanner's ForestIndex), the heaps of the exact phase (`pick`) and
-of Dijkstra (`pickD`), `σ` (address order of the spanner's edge nodes), `picks`, `sorter`, and for TBB `perm`, `scheds`,
+with `scanOkB`), `order` (unordered_set iteration in the spanner's ForestIndex), the heaps of the exact phase (`pick`, per phase,
+search, limit and step) and of Dijkstra (`pickD`, per dropped edge and step), `σ` (address order of the spanner's edge nodes), `picks`, `sorter`, and for TBB `perm`, `scheds`,
 `pushOrder`, `s`.
 
 Conclusion (`ApproxCorrect`, for every `k ≥ 1`): the call returns; the emitted cycles are a basis of the cycle space of
@@ -24,32 +24,32 @@ open Parmcb Parmcb.C01 Parmcb.C02
 
 theorem c05_approx_signed_end_to_end (g : Graph) (hs : g.simpleB = true) (hp : g.positiveB = true) (k : Nat) (hk : 1 ≤ k)
     (scan : List Nat) (hscan : scanOkB g scan = true) (order : List Nat) (ho : order.Perm (List.range g.n))
-    (pick : List Nat → Nat) (hpick : PickOK pick) (σ : Nat → List Nat → List Nat) (hσ : ∀ j S, (σ j S).Perm S)
-    (pickD : List Nat → Nat) (hpickD : PickOK pickD) :
+    (pick : Nat → PickFam) (hpick : ∀ j i L, PickOK (pick j i L)) (σ : Nat → List Nat → List Nat) (hσ : ∀ j S, (σ j S).Perm S)
+    (pickD : Nat → Pick) (hpickD : ∀ e, PickOK (pickD e)) :
     ApproxCorrect g k order (approxSigned g k scan order pick σ pickD) :=
   approxSigned_correct g hs hp k hk scan hscan order ho pick hpick σ hσ pickD hpickD
 
 theorem c05_approx_fvs_trees_end_to_end (g : Graph) (hs : g.simpleB = true) (hp : g.positiveB = true) (k : Nat) (hk : 1 ≤ k)
     (scan : List Nat) (hscan : scanOkB g scan = true) (order : List Nat) (ho : order.Perm (List.range g.n))
     (picks : List Nat) (hpicks : ∀ x, x < g.n → x ∈ picks) (sorter : List Cand → List Cand) (hsort : SortOK sorter)
-    (pickD : List Nat → Nat) (hpickD : PickOK pickD) :
+    (pickD : Nat → Pick) (hpickD : ∀ e, PickOK (pickD e)) :
     ApproxCorrect g k order (approxFvsTrees g k scan order picks sorter pickD) :=
   approxFvsTrees_correct g hs hp k hk scan hscan order ho picks hpicks sorter hsort pickD hpickD
 
 theorem c05_approx_iso_trees_end_to_end (g : Graph) (hs : g.simpleB = true) (hp : g.positiveB = true) (k : Nat) (hk : 1 ≤ k)
     (scan : List Nat) (hscan : scanOkB g scan = true) (order : List Nat) (ho : order.Perm (List.range g.n))
-    (sorter : List Cand → List Cand) (hsort : SortOK sorter) (pickD : List Nat → Nat) (hpickD : PickOK pickD) :
+    (sorter : List Cand → List Cand) (hsort : SortOK sorter) (pickD : Nat → Pick) (hpickD : ∀ e, PickOK (pickD e)) :
     ApproxCorrect g k order (approxIsoTrees g k scan order sorter pickD) :=
   approxIsoTrees_correct g hs hp k hk scan hscan order ho sorter hsort pickD hpickD
 
 theorem c03_approx_signed_tbb_end_to_end (g : Graph) (hs : g.simpleB = true) (hp : g.positiveB = true) (k : Nat) (hk : 1 ≤ k)
     (scan : List Nat) (hscan : scanOkB g scan = true) (order : List Nat) (ho : order.Perm (List.range g.n))
-    (pick : List Nat → Nat) (hpick : PickOK pick) (σ : Nat → List Nat → List Nat) (hσ : ∀ j S, (σ j S).Perm S)
+    (pick : Nat → PickFam) (hpick : ∀ j i L, PickOK (pick j i L)) (σ : Nat → List Nat → List Nat) (hσ : ∀ j S, (σ j S).Perm S)
     (perm : List Nat)
     (hperm : perm.Perm (List.range (createIndex (spannerGraph g (constructSpanner g k scan).1) order).dim))
     (scheds : Nat → List Nat → Sched)
     (hcovS : ∀ j S, (scheds j S).Covers 0 (if g.n ≤ S.length then g.n else S.length))
-    (pickD : List Nat → Nat) (hpickD : PickOK pickD)
+    (pickD : Nat → Pick) (hpickD : ∀ e, PickOK (pickD e))
     (pushOrder : List Nat) (hpush : pushOrder.Perm (List.range (constructSpanner g k scan).2.length))
     (s : Sched) (hcov : s.Covers 0 (constructSpanner g k scan).2.length) :
     ApproxCorrect g k order (approxSignedTbb g k scan order pick σ perm scheds pickD pushOrder s) :=
@@ -65,7 +65,7 @@ theorem c03_approx_fvs_trees_tbb_end_to_end (g : Graph) (hs : g.simpleB = true) 
           (createIndex (spannerGraph g (constructSpanner g k scan).1) order))
         (greedyFvs (reindex (spannerGraph g (constructSpanner g k scan).1)
           (createIndex (spannerGraph g (constructSpanner g k scan).1) order)) picks)).2.length)
-    (pickD : List Nat → Nat) (hpickD : PickOK pickD)
+    (pickD : Nat → Pick) (hpickD : ∀ e, PickOK (pickD e))
     (pushOrder : List Nat) (hpush : pushOrder.Perm (List.range (constructSpanner g k scan).2.length))
     (s : Sched) (hcov : s.Covers 0 (constructSpanner g k scan).2.length) :
     ApproxCorrect g k order (approxFvsTreesTbb g k scan order picks sorter scheds pickD pushOrder s) :=
@@ -78,14 +78,14 @@ theorem c03_approx_iso_trees_tbb_end_to_end (g : Graph) (hs : g.simpleB = true) 
     (hcovS : ∀ j, (scheds j).Covers 0
       (isoCands (reindex (spannerGraph g (constructSpanner g k scan).1)
           (createIndex (spannerGraph g (constructSpanner g k scan).1) order))).2.length)
-    (pickD : List Nat → Nat) (hpickD : PickOK pickD)
+    (pickD : Nat → Pick) (hpickD : ∀ e, PickOK (pickD e))
     (pushOrder : List Nat) (hpush : pushOrder.Perm (List.range (constructSpanner g k scan).2.length))
     (s : Sched) (hcov : s.Covers 0 (constructSpanner g k scan).2.length) :
     ApproxCorrect g k order (approxIsoTreesTbb g k scan order sorter scheds pickD pushOrder s) :=
   approxIsoTreesTbb_correct g hs hp k hk scan hscan order ho sorter hsort scheds hcovS pickD hpickD pushOrder hpush s hcov
 
 /-- `k = 0`: rejected, nothing emitted — for every exact phase and both builders -/
-theorem c06_k0_end_to_end (g : Graph) (scan : List Nat) (exact : Graph → McbResult) (pickD : List Nat → Nat)
+theorem c06_k0_end_to_end (g : Graph) (scan : List Nat) (exact : Graph → McbResult) (pickD : Nat → Pick)
     (pushOrder : List Nat) (s : Sched) :
     approxCore g 0 scan exact pickD = .error ∧ approxCoreTbb g 0 scan exact pickD pushOrder s = .error :=
   ⟨approxCore_k0 g scan exact pickD, approxCoreTbb_k0 g scan exact pickD pushOrder s⟩
@@ -97,7 +97,7 @@ theorem c06_k1_end_to_end (g : Graph) (order0 : List Nat) (o : ApproxOutcome) (h
 
 /-- the literal `parmcb::dijkstra` with predecessor edges, for every heap behaviour: the walk back from `t` is a shortest
 walk between `t` and `s` without repeated edge -/
-theorem c06_dijkstra_path (g : Graph) (hs : g.simpleB = true) (hp : g.positiveB = true) (pick : List Nat → Nat)
+theorem c06_dijkstra_path (g : Graph) (hs : g.simpleB = true) (hp : g.positiveB = true) (pick : Pick)
     (hpick : PickOK pick) (s t : Nat) (hsn : s < g.n) (htn : t < g.n) (hst : s ≠ t)
     (hreach : ∃ es, (∀ e ∈ es, e < g.m) ∧ isWalk g es s t = true) :
     let p := pathBack (dijkstraP g pick s) (g.n + 1) t
@@ -109,7 +109,7 @@ theorem c06_dijkstra_path (g : Graph) (hs : g.simpleB = true) (hp : g.positiveB 
 example :
     let g : Graph := { n := 4, edges := [(0, 1, 1), (1, 2, 2), (2, 3, 3), (3, 0, 4), (0, 2, 5), (1, 3, 6)] }
     g.simpleB = true ∧ g.positiveB = true ∧ scanOkB g [0, 1, 2, 3, 4, 5] = true ∧
-    (match approxSigned g 2 [0, 1, 2, 3, 4, 5] [0, 1, 2, 3] pickHead (fun _ S => S) pickHead with
+    (match approxSigned g 2 [0, 1, 2, 3, 4, 5] [0, 1, 2, 3] (fun _ _ _ => pickHead) (fun _ S => S) (fun _ => pickHead) with
      | .ok cycles _ => cycles.length
      | .error => 0) = 3 := by decide
 
